@@ -267,6 +267,7 @@ func replayStored(repo, verif, prop, path string) int {
 		return 2
 	}
 	_, dirFiles := findHarnesses(verif, r.Property)
+	collectNativeStubs(dirFiles)
 	h := harnessInfo{Name: r.Harness, Dir: r.Dir}
 	v := &Violation{Label: r.Label, Kind: r.Kind}
 	ok, out := replayNative(repo, verif, dirFiles, h, path, v)
